@@ -94,7 +94,7 @@ def gen_fault(rng, root):
     lists = [n for n in nodes if isinstance(n, (ast.List, ast.Tuple, ast.Set, ast.Call))]
     kind = rng.choice(['unparsable', 'unparsable', 'wrong_category', 'bad_index', 'bad_option_value', 'unknown_option', 'consumed_fst',
                        'nonroot_fst', 'to_without_raw', 'delete_required', 'starred_in_delete', 'stmt_unparsable', 'bad_slice',
-                       'bad_field', 'keyword_order'])
+                       'bad_field', 'keyword_order', 'args_order', 'args_order', 'generic_put', 'generic_put', 'generic_put'])
     d = {'fault': kind}
     if kind == 'unparsable' and exprs:
         n = rng.choice(exprs)
@@ -174,6 +174,28 @@ def gen_fault(rng, root):
         n = rng.choice(exprs)
         d.update(path=edits.path_of(a, n))
         return d, lambda: n.f.put('zz', 0, 'no_such_field')
+    if kind == 'args_order':
+        argn = [n for n in nodes if isinstance(n, ast.arguments) and (n.posonlyargs or n.kwonlyargs or n.vararg or n.defaults or n.args)]
+        if not argn:
+            return None
+        n = rng.choice(argn)
+        L = len(n.posonlyargs) + len(n.args) + (1 if n.vararg else 0) + len(n.kwonlyargs) + (1 if n.kwarg else 0)
+        s0 = rng.randrange(0, L + 1)
+        e0 = rng.randrange(s0, L + 1)
+        code = rng.choice(['*z', 'z', 'z=1', '**z', '*z, y', 'y=1, z', '**z, y', 'z, /', '*, z', 'a', '*args'])
+        d.update(path=edits.path_of(a, n), start=s0, stop=e0, code=code)
+        return d, lambda: n.f.put_slice(code, s0, e0, '_all')
+    if kind == 'generic_put':
+        n = rng.choice([x for x in nodes if x._fields])
+        fld = rng.choice(n._fields)
+        v = getattr(n, fld, None)
+        code = rng.choice([None, None, 'zz', 'zz + 1', 'pass', '*zz', 'zz=1', '1 +', 'case 1: pass', 'except: pass', 'zz as yy', 'zz: int', "'s'"])
+        if isinstance(v, list):
+            idx = rng.randrange(-len(v) - 1, len(v) + 2)
+            d.update(path=edits.path_of(a, n), field=fld, idx=idx, code=code)
+            return d, lambda: n.f.put(code, idx, fld, norm=True)
+        d.update(path=edits.path_of(a, n), field=fld, code=code)
+        return d, lambda: n.f.put(code, fld, norm=True)
     if kind == 'keyword_order':
         calls = [n for n in nodes if isinstance(n, ast.Call) and n.keywords]
         if not calls:
@@ -252,6 +274,64 @@ def stage_faults(ctx: Ctx, progs):
     ctx.extra['successful_calls_interleaved'] = nsucc
 
 
+def stage_delete_sweep(ctx: Ctx):
+    """(node, field) sweep over the hand corpus: delete every single-node field (put(None, field)) and every whole list
+    field (put_slice(None, field)); whenever the request is refused the tree must be exactly as before."""
+    import fst
+    from fst.fst_core import _MODIFYING
+    from lib.progs import CORPUS
+    rng = ctx.rng
+    cases = []
+    classes = {}
+    for pi, src in enumerate(CORPUS):
+        a = ast.parse(src)
+        parent = {}
+        for p_ in ast.walk(a):
+            for c_ in ast.iter_child_nodes(p_):
+                parent[c_] = p_
+        for n in ast.walk(a):
+            present = tuple(f for f in n._fields if getattr(n, f, None) not in (None, [], ''))
+            for fld in n._fields:
+                v = getattr(n, fld, None)
+                how = 'one' if isinstance(v, ast.AST) and not isinstance(v, ast.expr_context) else \
+                    'list' if isinstance(v, list) and v and isinstance(v[0], ast.AST) else None
+                if how:
+                    case = (pi, edits.path_of(a, n), fld, how)
+                    cases.append(case)
+                    classes.setdefault((type(parent.get(n)).__name__, type(n).__name__, fld, present), []).append(case)
+    if not ctx.thorough:
+        # one representative of every (parent kind, node kind, field, which fields are present) class, plus a random sample
+        picked = [rng.choice(v) for v in classes.values()]
+        pk = set(id(c) for c in picked)
+        rest = [c for c in cases if id(c) not in pk]
+        cases = picked + rng.sample(rest, min(len(rest), 150))
+    ctx.extra['delete_sweep_classes'] = len(classes)
+    for pi, path, fld, how in cases:
+        src = CORPUS[pi]
+        root = fst.FST(src, 'exec')
+        n = edits.node_at(root.a, path)
+        before = snapshot(root)
+        try:
+            if how == 'one':
+                n.f.put(None, fld, norm=True)
+            else:
+                n.f.put_slice(None, 0, 'end', fld, norm=True)
+            res = 'ok'
+        except Exception as e:
+            res = type(e).__name__
+        ctx.dist['sweep:' + ('refused' if res != 'ok' else 'ok')] = ctx.dist.get('sweep:' + ('refused' if res != 'ok' else 'ok'), 0) + 1
+        if _MODIFYING:
+            ctx.violation(f'lock|sweep|{type(n).__name__}.{fld}', 'modification registry not empty after a delete request', {'src': src, 'path': path, 'field': fld})
+            _MODIFYING.clear()
+        if res != 'ok':
+            ctx.tick(('sweep', pi, str(path), fld), None)
+            after = snapshot(root)
+            if after != before:
+                ctx.violation(f'mutated|sweep-delete|{type(n).__name__}.{fld}|{res}', 'a refused delete request changed the tree',
+                              {'src': src, 'path': path, 'node': type(n).__name__, 'field': fld, 'how': how, 'error': res,
+                               'src_after': after[0], 'source_equal': after[0] == before[0], 'dump_equal': after[1] == before[1]})
+
+
 def run(ctx: Ctx):
     ctx.rule = ('fault sequences: histories mixing invalid requests (15 fault kinds: unparsable code, wrong category with coerce=False, index/slice out of '
                 'range, bad/unknown options, consumed or non-root FST as code, to= without raw, deletion of required fields, ordering violations) and '
@@ -265,6 +345,7 @@ def run(ctx: Ctx):
         run_guarded(ctx, stage_registry_corr)
     progs = corpus(ctx.rng, gen=ctx.scale(20, 150))
     run_guarded(ctx, stage_faults, progs)
+    run_guarded(ctx, stage_delete_sweep)
 
 
 def replay(path):
